@@ -192,3 +192,11 @@ Example C15_hypotheses_satisfiable :
   (* move-assigning remover 1 into the non-empty remover 2 releases 4 and 6, keeps 3 *)
   atts (rstep true true (RMoveAssign 1 2) st) = [((1, 1), 8); ((0, 0), 9); ((0, 1), 3); ((1, 0), 5)].
 Proof. vm_compute. repeat split; reflexivity. Qed.
+
+(* the model removes a listener THROUGH a remover in one step: the record is found and erased, then the target's removal
+   runs.  Tie A for "found and erased in one critical section" (tools/leaves/remover.py erase_where_found): every erase of a
+   single record in scopedremover.h is in the function — and under the lock — that searched for it, so no removal that
+   re-enters the remover in between (another thread's, or one made by the destructor of the callback being removed) can
+   shift the records under a remembered position *)
+Theorem C15_record_is_erased_where_it_is_found : GenRemover.record_erased_where_found = true.
+Proof. reflexivity. Qed.
